@@ -149,6 +149,10 @@ func (presentationDefinition PresentationDefinition) ResolveConstraintsFields(cr
 func (presentationDefinition PresentationDefinition) CredentialsRequired() bool {
 	if len(presentationDefinition.SubmissionRequirements) > 0 {
 		for _, submissionRequirement := range presentationDefinition.SubmissionRequirements {
+			if submissionRequirement == nil {
+				// malformed definition (see checkEntries): Match fails on it, which must not be taken for "no credentials required"
+				return true
+			}
 			switch submissionRequirement.Rule {
 			case "all":
 				return true
